@@ -59,7 +59,8 @@ def gen_case(tape, tier):
         "buffer_size": tape.pick([None, None, 32, 256], "buffer-size"),
         "orphans": bool(tape.coin(0.5, "orphans")),
         "preempt": tape.pick([0.1, 0.4, 0.8], "preempt"),
-        "pairs": tier == "thorough" and bool(tape.coin(0.3, "pairs")),
+        "pairs": bool(tape.coin(0.3 if tier == "thorough" else 0.25, "pairs")),
+        "n_pairs": 60 if tier == "thorough" else 12,
         "max_plans": 120 if tier == "quick" else 400,
     }
     return {"mode": "enumerate", "workload": w, "config": cfg}
@@ -527,7 +528,7 @@ def run_case(case, exec_seed=None, exec_tape=None):
         probes["plans_sampled_down"] = 1
     if cfg.get("pairs"):
         singles = [p for p in plans if p[0]["kind"] == "crash"]
-        for _ in range(min(60, len(singles))):
+        for _ in range(min(cfg.get("n_pairs", 60), len(singles))):
             a = sel.pick(singles, "pair-a")[0]
             b = {"kind": "crash", "at": 1 + sel.choose(max(1, base.n_events), "pair-b"), "torn": sel.pick([None, None, 1], "pair-torn"),
                  "hit": "second"}
